@@ -300,6 +300,7 @@ package varlink
 //@   ensures [running C14] s.running == old(s.running)
 
 //@ func NewConnection {C19 | safety: C19}
+//@   modifies bufLo, bufHi
 //@   ensures [nocolon C19] colon(address) < 0 ==> result1 != nil && result0 == nil
 //@   ensures [ok C19] result1 == nil ==> result0 != nil && result0.conn != nil
 //@   assert [fields C19] at call(DialContext)#1 : colon(address) >= 0 && arg2 == protoOf(address) && arg3 == pathOf(address)
@@ -616,16 +617,27 @@ package varlink
 //@   ensures [verbatim C03] n == gN && err == gE
 //@   assert [fwd C03] at call(Write)#1 : arg0 == p.writer && arg1 == b
 
+//@ func (interface).SetReadDeadline(self, t)
+//@   interface
+//@   modifies gFwdCnt
+//@   ensures gFwdCnt == old(gFwdCnt) + 1
+//@ func (interface).SetWriteDeadline(self, t)
+//@   interface
+//@   modifies gFwdCnt
+//@   ensures gFwdCnt == old(gFwdCnt) + 1
+
 //@ func (PipeCon).SetReadDeadline {C17 | safety: C11}
 //@   modifies gFwdCnt
 //@   ensures [forwards C17] result == nil ==> gFwdCnt == old(gFwdCnt) + 1
+//@   assert [same C17] at call(SetReadDeadline)#1 : arg0 == p.reader && arg1 == t
 
 //@ func (PipeCon).SetWriteDeadline {C17 | safety: C11}
 //@   modifies gFwdCnt
 //@   ensures [forwards C17] result == nil ==> gFwdCnt == old(gFwdCnt) + 1
+//@   assert [same C17] at call(SetWriteDeadline)#1 : arg0 == p.writer && arg1 == t
 
 //@ func NewBridgeWithStderr {C03 | safety: C11}
-//@   modifies gOut, gIn, anyfield(exec.Cmd.Stderr)
+//@   modifies gOut, gIn, anyfield(exec.Cmd.Stderr), bufLo, bufHi
 //@   ghostset at call(StdoutPipe)#1 : gOut = res0
 //@   ghostset at call(StdinPipe)#1 : gIn = res0
 //@   assert [wiring C03] at call(NewConn)#1 : unbox(PipeCon, arg0).reader == gOut && unbox(PipeCon, arg0).writer == gIn && unbox(PipeCon, arg0).cmd == cmd
